@@ -1,6 +1,6 @@
 (* C12 — A remote File keeps os.File's offset and closed-state semantics. Theorems only; proofs in Proofs/TransferP.v, Proofs/FileOpsP.v *)
 From Coq Require Import List NArith ZArith Bool Arith Lia Strings.Byte.
-From Sftp Require Import Base.GoSem Xfer.Transfer Xfer.FileOps Proofs.TransferP Proofs.TransferE2EP Proofs.FileOpsP.
+From Sftp Require Import Base.GoSem Xfer.Transfer Xfer.FileOps Proofs.TransferP Proofs.TransferE2EP Proofs.FileOpsP Xfer.FileLock Proofs.FileLockP.
 Import ListNotations.
 
 (* Seek computes start-, current- and end-relative positions, rejects an invalid whence, and a failing Seek does not move *)
@@ -80,6 +80,34 @@ Print Assumptions C12_offsets_like_os.
    File.mu (sync.RWMutex) and is decided per run by family c12 (Close races against a logging peer). The model fstep is
    tied to client.go on every run: family c12 kind fseqm replays each random method sequence on the extracted model and
    compares count, error, data and offset after every step and the final content. *)
+(* ===== closed state under concurrency (Xfer/FileLock.v) =====
+   Every File method takes f.mu (shared or exclusive), looks at the handle, sends its requests and unlocks; Close clears the
+   handle and sends CLOSE under the exclusive lock. For every set of concurrent calls (any mix of shared-lock methods,
+   exclusive-lock methods and Close calls, any number of requests each) and every interleaving of their lock / check / send /
+   unlock steps: at most one CLOSE request is written and no request carrying the handle is written after it; once the
+   handle is gone it stays gone and every method that looks at it returns os.ErrClosed; and while some call has not returned,
+   some thread can take a step (no deadlock; the RWMutex is modelled by its exclusion guarantee, not by its fairness). The c12
+   family runs the same `wire_scan` over the requests the peer saw in its Close races (kind closewire). *)
+Theorem C12_no_request_after_close : forall calls tr s, FileLock.frun8 (FileLock.finit calls) tr = Some s ->
+  FileLock.wire_scan (FileLock.wire s) false = true /\
+  exists pre, FileLockP.noclose pre /\ (FileLock.wire s = pre \/ exists c, FileLock.wire s = pre ++ [FileLock.WClose c]).
+Proof. exact FileLockP.no_request_after_close. Qed.
+Print Assumptions C12_no_request_after_close.
+
+Theorem C12_closed_stays : forall s l s', FileLock.fstep s l = Some s' -> FileLock.closed s = true -> FileLock.closed s' = true.
+Proof. exact FileLockP.closed_stays. Qed.
+Print Assumptions C12_closed_stays.
+
+Theorem C12_check_after_close_is_errclosed : forall s c s', FileLock.closed s = true -> FileLock.fstep s (FileLock.Chk c) = Some s' ->
+  exists t', FileLock.thr_of c (FileLock.threads s') = Some t' /\ FileLock.st t' = FileLock.SRel true.
+Proof. exact FileLockP.check_after_close_is_errclosed. Qed.
+Print Assumptions C12_check_after_close_is_errclosed.
+
+Theorem C12_close_no_deadlock : forall calls tr s, FileLock.frun8 (FileLock.finit calls) tr = Some s ->
+  (exists c t, In (c, t) (FileLock.threads s) /\ forall b, FileLock.st t <> FileLock.SDone b) -> exists l s', FileLock.fstep s l = Some s'.
+Proof. exact FileLockP.no_deadlock. Qed.
+Print Assumptions C12_close_no_deadlock.
+
 Example C12_nonvacuous :
   seek 5 20 SeekEnd (-3)%Z = (17, false) /\ seek 5 20 SeekCurrent (-6)%Z = (5, true) /\ seek 5 20 SeekBad 0%Z = (5, true).
 Proof. vm_compute. repeat split; reflexivity. Qed.
@@ -91,3 +119,10 @@ Example C12_refinement_nonvacuous :
   map r_n (snd (frun o (s, 0) [FRead 4; FWrite (pattern 50 7); FSeek SeekEnd (-2)%Z; FRead 5; FReadAt 1 3; FWriteTo])) = [4; 7; 9; 2; 3; 0] /\
   snd (fst (frun o (s, 0) [FRead 4; FWrite (pattern 50 7); FSeek SeekEnd (-2)%Z; FRead 5])) = 11.
 Proof. split; [repeat split; intros; try reflexivity; cbn; lia|]. vm_compute. split; reflexivity. Qed.
+
+Example C12_lock_nonvacuous :
+  exists s, FileLock.frun8 (FileLock.finit [(FileLock.MShared, 2); (FileLock.MClose, 1); (FileLock.MShared, 1)])
+              [FileLock.Acq 0; FileLock.Acq 2; FileLock.Chk 0; FileLock.Snd 0; FileLock.Chk 2; FileLock.Snd 2; FileLock.Rel 2; FileLock.Snd 0; FileLock.Rel 0;
+               FileLock.Acq 1; FileLock.Chk 1; FileLock.Snd 1; FileLock.Rel 1] = Some s /\
+            FileLock.wire s = [FileLock.WReq 0; FileLock.WReq 2; FileLock.WReq 0; FileLock.WClose 1] /\ FileLock.closed s = true.
+Proof. eexists. split; [vm_compute; reflexivity | split; reflexivity]. Qed.
